@@ -223,9 +223,33 @@ func C03(ctx *core.Ctx) {
 		ctx.Unresolved("C03.R9", "InvocationHandler", "type not found")
 	} else {
 		want := ih.Type().Underlying()
-		var rootFree func(v ssa.Value, depth int) *ssa.FreeVar
-		rootFree = func(v ssa.Value, depth int) *ssa.FreeVar {
+		// state that outlives one invocation: captured variables of a closure, or
+		// the receiver of a method used as a handler (bound method value)
+		isRecv := func(v ssa.Value) bool {
+			switch x := v.(type) {
+			case *ssa.Parameter:
+				return x.Parent().Signature.Recv() != nil && len(x.Parent().Params) > 0 && x.Parent().Params[0] == x
+			case *ssa.Alloc:
+				// the spilled copy of a value receiver
+				for _, u := range *x.Referrers() {
+					if st, ok := u.(*ssa.Store); ok && st.Addr == ssa.Value(x) {
+						if q, isP := st.Val.(*ssa.Parameter); isP && q.Parent().Signature.Recv() != nil && q.Parent().Params[0] == q {
+							return true
+						}
+					}
+				}
+			}
+			return false
+		}
+		var rootFree func(v ssa.Value, depth int) ssa.Value
+		rootFree = func(v ssa.Value, depth int) ssa.Value {
 			if depth > 8 {
+				return nil
+			}
+			if sv := ssax.Strip(v); isRecv(sv) {
+				if _, isAlloc := sv.(*ssa.Alloc); !isAlloc || depth > 1 {
+					return sv // through the receiver (a store to a field of the by-value copy itself is local)
+				}
 				return nil
 			}
 			switch x := ssax.Strip(v).(type) {
@@ -244,8 +268,18 @@ func C03(ctx *core.Ctx) {
 			}
 			return nil
 		}
+		sameShape := func(fn *ssa.Function) bool {
+			if fn.Parent() != nil {
+				return types.Identical(fn.Signature, want)
+			}
+			if fn.Signature.Recv() == nil || fn.Synthetic != "" {
+				return false
+			}
+			sig := fn.Signature
+			return types.Identical(types.NewSignatureType(nil, nil, nil, sig.Params(), sig.Results(), sig.Variadic()), want)
+		}
 		for _, fn := range r.Fns {
-			if fn.Parent() == nil || !types.Identical(fn.Signature, want) {
+			if !sameShape(fn) {
 				continue
 			}
 			bad := ""
@@ -263,7 +297,7 @@ func C03(ctx *core.Ctx) {
 				case *ssa.Return:
 					for _, rv := range x.Results {
 						if fv := rootFree(rv, 0); fv != nil {
-							if _, isSl := fv.Type().Underlying().(*types.Pointer).Elem().Underlying().(*types.Slice); isSl {
+							if _, isSl := rv.Type().Underlying().(*types.Slice); isSl {
 								bad = r.IPos(in) + ": returns captured slice " + fv.Name()
 							}
 						}
